@@ -346,10 +346,21 @@ pub fn cmp(m: &mut M, r: &mut Rng, n: u64) {
 pub fn grid07(m: &mut M, r: &mut Rng, slice: u64, stride: u64) {
     m.group("grid07");
     let mants: [u64; 7] = [0, 1, 2, (1 << 52) - 1, (1 << 52) - 2, 0, 0];
-    let mut ef: u64 = slice % stride;
-    while ef <= 2047 {
-        let full = stride == 1 || ef < 64 || ef > 1983 || (ef >= 1000 && ef < 1100);
-        let _ = full;
+    // the strided exponent fields of this slice, plus (in slice 0) the special ones whatever the stride
+    let mut efs: Vec<u64> = Vec::new();
+    let mut e0: u64 = slice % stride;
+    while e0 <= 2047 {
+        efs.push(e0);
+        e0 += stride;
+    }
+    if slice % stride == 0 {
+        for sp in [0u64, 1, 2, 3, 52, 53, 54, 55, 1022, 1023, 1024, 2044, 2045, 2046, 2047] {
+            if !efs.contains(&sp) {
+                efs.push(sp);
+            }
+        }
+    }
+    for ef in efs {
         for (mi, mant0) in mants.iter().enumerate() {
             let mant = match mi {
                 5 => (r.next() & ((1u64 << 52) - 1)) | 1,
@@ -390,7 +401,6 @@ pub fn grid07(m: &mut M, r: &mut Rng, slice: u64, stride: u64) {
                 }
             }
         }
-        ef += stride;
     }
 }
 
